@@ -14,7 +14,7 @@ RULE = ("Hypothesis-generated histories on one graph object: a non-empty graph (
         "Binomial(M,phi) law on stars (M in 4..12, phi in {0.2,0.35,0.7}). Non-trivial = graph with >= 3 edges and some "
         "call with 0<phi<1; distinct = canonical JSON")
 ASSUMPTIONS = ["law clause decided statistically (p<1e-9) on 4000 (quick) / 40000 seeded runs per star"]
-BUDGET = {"quick": (16, 300), "thorough": (16, 4000)}
+BUDGET = {"quick": (16, 300), "thorough": (16, 12000)}
 
 
 @st.composite
